@@ -81,7 +81,8 @@ for k, n in enumerate(todo):
         meta.setdefault("confirmed", {})["suite"] = summ + retry
         meta["confirmed"]["suite_failed_only_on_mutant"] = sorted(new)
         meta["confirmed"]["suite_failed_also_on_baseline"] = sorted(failed & baseline_failed)
-        meta["confirmed"]["suite_passes"] = not new
+        # a run that produced no summary (killed by the 30-minute timeout: some test hangs) is NOT a pass
+        meta["confirmed"]["suite_passes"] = (not new) and not summ.startswith("no summary")
         json.dump(meta, open(mp, "w"), indent=1)
         print(time.strftime("%H:%M:%S"), n, summ, retry, "NEW FAILURES:" if new else "ok", sorted(new)[:4], flush=True)
     finally:
